@@ -60,6 +60,10 @@ type UnitCfg struct {
 	// overlay copy of the file the function is renamed to <name>__real, and the
 	// harness defines <name> itself (same for the engine and the native replay).
 	Rename []RenameCfg `json:"rename"`
+	// ReplaceMods lists dependency modules that are copied out of the (read-only,
+	// not overlayable) module cache and wired in through a scratch go.mod with
+	// replace directives, so that their files can be overlaid (renamed stubs).
+	ReplaceMods []string `json:"replace_mods"`
 	Solver   string    `json:"solver"`   // z3 (default) | cvc5 | cvc5-int
 	Fallback string    `json:"fallback"` // solver for assertion queries the primary answers unknown
 }
@@ -169,6 +173,46 @@ type runner struct {
 	hc                            HarnessCfg
 	scratch                       string
 	mutOverlay                    map[string]string // repo file -> replacement file (self-test mutants)
+	modCopies                     map[string]string // module path -> scratch copy
+	modfile                       string
+}
+
+// prepareMods copies the listed modules out of the module cache and writes a
+// scratch go.mod/go.sum replacing them.
+func (r *runner) prepareMods(u *UnitCfg) ([]string, error) {
+	r.modfile = ""
+	if len(u.ReplaceMods) == 0 {
+		return nil, nil
+	}
+	if r.modCopies == nil {
+		r.modCopies = map[string]string{}
+	}
+	gm, err := os.ReadFile(filepath.Join(r.repo, "go.mod"))
+	if err != nil {
+		return nil, err
+	}
+	var extra strings.Builder
+	for _, m := range u.ReplaceMods {
+		if _, ok := r.modCopies[m]; !ok {
+			src := r.modPath(m)
+			dst := filepath.Join(r.scratch, "mods", strings.ReplaceAll(m, "/", "_"))
+			os.MkdirAll(filepath.Dir(dst), 0o755)
+			if out, err := exec.Command("cp", "-r", src, dst).CombinedOutput(); err != nil {
+				return nil, fmt.Errorf("copy module %s: %v %s", m, err, out)
+			}
+			exec.Command("chmod", "-R", "u+w", dst).Run()
+			r.modCopies[m] = dst
+		}
+		fmt.Fprintf(&extra, "\nreplace %s => %s\n", m, r.modCopies[m])
+	}
+	mf := filepath.Join(r.scratch, "go.mod")
+	if err := os.WriteFile(mf, append(gm, []byte(extra.String())...), 0o644); err != nil {
+		return nil, err
+	}
+	gs, _ := os.ReadFile(filepath.Join(r.repo, "go.sum"))
+	os.WriteFile(filepath.Join(r.scratch, "go.sum"), gs, 0o644)
+	r.modfile = mf
+	return []string{"-modfile=" + mf}, nil
 }
 
 func main() {
@@ -248,7 +292,7 @@ func (r *runner) overlayFor(u *UnitCfg) (map[string][]byte, error) {
 		if err != nil {
 			return nil, err
 		}
-		ov[filepath.Join(r.repo, dir, filepath.Base(f))] = b
+		ov[filepath.Join(r.destDir(dir), filepath.Base(f))] = b
 	}
 	for dst, src := range r.mutOverlay {
 		b, err := os.ReadFile(src)
@@ -258,10 +302,8 @@ func (r *runner) overlayFor(u *UnitCfg) (map[string][]byte, error) {
 		ov[dst] = b
 	}
 	for _, rc := range u.Rename {
-		path := rc.File
-		if !filepath.IsAbs(path) {
-			path = filepath.Join(r.repo, path)
-		}
+		path := r.destDir(filepath.Dir(rc.File))
+		path = filepath.Join(path, filepath.Base(rc.File))
 		src, ok := ov[path]
 		if !ok {
 			var err error
@@ -325,6 +367,51 @@ func renameFuncs(path string, src []byte, funcs []string) ([]byte, error) {
 	return out, nil
 }
 
+// destDir resolves a harness file destination: repo-relative, absolute, or
+// "mod:<module>/<subdir>" for a dependency in the module cache (version from go.mod).
+func (r *runner) destDir(d string) string {
+	if strings.HasPrefix(d, "mod:") {
+		return r.modPath(strings.TrimPrefix(d, "mod:"))
+	}
+	if filepath.IsAbs(d) {
+		return d
+	}
+	return filepath.Join(r.repo, d)
+}
+
+func (r *runner) modPath(p string) string {
+	for m, dst := range r.modCopies {
+		if p == m || strings.HasPrefix(p, m+"/") {
+			return filepath.Join(dst, strings.TrimPrefix(p, m))
+		}
+	}
+	gm, _ := os.ReadFile(filepath.Join(r.repo, "go.mod"))
+	best, bestVer := "", ""
+	for _, l := range strings.Split(string(gm), "\n") {
+		f := strings.Fields(l)
+		if len(f) >= 2 && (p == f[0] || strings.HasPrefix(p, f[0]+"/")) && len(f[0]) > len(best) {
+			best, bestVer = f[0], f[1]
+		}
+	}
+	if best == "" {
+		return p
+	}
+	// module cache escapes upper-case letters as !lower
+	esc := func(s string) string {
+		var sb strings.Builder
+		for _, c := range s {
+			if c >= 'A' && c <= 'Z' {
+				sb.WriteByte('!')
+				sb.WriteRune(c + 32)
+			} else {
+				sb.WriteRune(c)
+			}
+		}
+		return sb.String()
+	}
+	return filepath.Join("/root/go/pkg/mod", esc(best)+"@"+bestVer, strings.TrimPrefix(p, best))
+}
+
 func (r *runner) tierFor(u *UnitCfg, e *EntryCfg) TierCfg {
 	t := defaultTiers[r.tier]
 	t = mergeTier(t, r.hc.Tiers[r.tier])
@@ -348,11 +435,15 @@ func (r *runner) run(out, onlyEntry string) int {
 
 	for ui := range r.hc.Units {
 		u := &r.hc.Units[ui]
+		modFlags, err := r.prepareMods(u)
+		if err != nil {
+			fatal(2, "INCONCLUSIVE build: %v", err)
+		}
 		ov, err := r.overlayFor(u)
 		if err != nil {
 			fatal(2, "INCONCLUSIVE build: %v", err)
 		}
-		ld, err := eng.Load(r.repo, u.Package, ov, []string{"verif"})
+		ld, err := eng.Load(r.repo, u.Package, ov, []string{"verif"}, modFlags...)
 		if err != nil {
 			fmt.Printf("INCONCLUSIVE build: %v\n", err)
 			r.writeEvidence(out, t0, nil, nil, nil, []string{"build failed: " + err.Error()}, 0, 0, 0, 0, nil)
@@ -667,17 +758,14 @@ func (r *runner) nativeRun(u *UnitCfg, pkgName string, tape string) (string, err
 	}
 	var dir string
 	for f, d := range u.Files {
-		rep[filepath.Join(r.repo, d, filepath.Base(f))] = filepath.Join(r.hdir, f)
+		rep[filepath.Join(r.destDir(d), filepath.Base(f))] = filepath.Join(r.hdir, f)
 		dir = d
 	}
 	for dst, src := range r.mutOverlay {
 		rep[dst] = src
 	}
 	for i, rc := range u.Rename {
-		path := rc.File
-		if !filepath.IsAbs(path) {
-			path = filepath.Join(r.repo, path)
-		}
+		path := filepath.Join(r.destDir(filepath.Dir(rc.File)), filepath.Base(rc.File))
 		srcPath := path
 		if m, ok := rep[path]; ok {
 			srcPath = m
@@ -708,7 +796,12 @@ func (r *runner) nativeRun(u *UnitCfg, pkgName string, tape string) (string, err
 	ovb, _ := json.Marshal(map[string]any{"Replace": rep})
 	ovPath := filepath.Join(r.scratch, "overlay.json")
 	os.WriteFile(ovPath, ovb, 0o644)
-	cmd := exec.Command("go", "test", "-tags", "verif", "-vet=off", "-count=1", "-overlay", ovPath, "-run", "^TestVerifReplay$", "-v", u.Package)
+	args := []string{"test", "-tags", "verif", "-vet=off", "-count=1", "-overlay", ovPath}
+	if r.modfile != "" {
+		args = append(args, "-modfile="+r.modfile)
+	}
+	args = append(args, "-run", "^TestVerifReplay$", "-v", u.Package)
+	cmd := exec.Command("go", args...)
 	cmd.Dir = r.repo
 	cmd.Env = append(os.Environ(), "VERIF_TAPE="+tape, "GOFLAGS=-mod=mod", "GOPROXY=off", "GOSUMDB=off", "GOTOOLCHAIN=local")
 	done := make(chan struct{})
@@ -747,6 +840,7 @@ func (r *runner) replayOnly(tape string) int {
 						pkgName = string(m[1])
 					}
 				}
+				r.prepareMods(u)
 				outp, _ := r.nativeRun(u, pkgName, tape)
 				fmt.Println(outp)
 				if strings.Contains(outp, "VERIF-REPLAY: assert-failed") || strings.Contains(outp, "panic:") {
